@@ -572,7 +572,162 @@ def coordinates_written_as_given(repo, rep):
     rep.floor("R-C11-17", "write-path functions", n, 8)
 
 
+def swan_nodata_and_chunks(repo, rep):
+    """R-C11-18: the value whose NaN-ness selects the NODATA keyword is a NaN-PROPAGATING reduction of the spectrum (max, not nanmax / a reduction
+    with `initial=`): otherwise an all-missing spectrum is written as ZERO and reads back as zeros.
+    R-C11-19: in to_swan's chunked loop the time stamp written with a block of spectra is the one at the SAME global position: the spectra come
+    from dset.isel(time=slice(L, U)); the stamp must come from times[L:U] at the same running index (or times[L + i])."""
+    rep.rule("R-C11-18", "SwanSpecFile.write_spectra decides NODATA on a NaN-propagating reduction of the spectrum")
+    ws = repo.cls("wavespectra.core.swan.SwanSpecFile").methods["write_spectra"]
+    tests = [c for c in ast.walk(ws.node) if isinstance(c, ast.Call) and call_name(c).split(".")[-1] == "isnan" and c.args]
+    if not tests:
+        raise AnalysisError("write_spectra: isnan test of the scale factor not found")
+    from ..astutil import resolve as _res
+    for t in tests:
+        v = _res(ws.node, t.args[0], before=t.lineno) if isinstance(t.args[0], ast.Name) else t.args[0]
+        skipping = [c for c in ast.walk(v) if isinstance(c, ast.Call) and (call_name(c).split(".")[-1] in ("nanmax", "nanmin", "nansum", "nanmean", "fmax", "fmin", "nan_to_num")
+                    or any(k.arg in ("initial", "where") for k in c.keywords)
+                    or (isinstance(c.func, ast.Attribute) and c.func.attr in ("max", "min") and any(k.arg == "skipna" and repo.const(ws.module, k.value) is True for k in c.keywords)))]
+        if skipping:
+            rep.fail("R-C11-18", ws.file, t.lineno, ws.qualname, unparse(v)[:90],
+                     f"{unparse(skipping[0])[:50]} ignores NaN (or starts from a finite value): the factor of an all-missing spectrum is finite, the NODATA branch is dead "
+                     "and the spectrum is written as ZERO - it reads back as zeros instead of missing", anchor="swan:nodata-factor")
+        else:
+            rep.ok("R-C11-18", f"{ws.file}:{t.lineno} write_spectra", unparse(v)[:70], "NaN in the spectrum reaches the NODATA test")
+    rep.rule("R-C11-19", "to_swan writes each block of spectra with the time stamps of the same positions (spectra and stamps sliced by the same bounds and "
+                         "walked by the same index)")
+    fi = repo.func("wavespectra.output.swan.to_swan")
+    calls = [c for c in ast.walk(fi.node) if isinstance(c, ast.Call) and isinstance(c.func, ast.Attribute) and c.func.attr == "write_spectra"]
+    if not calls:
+        raise AnalysisError("to_swan: write_spectra call not found")
+
+    def txt(e):
+        return unparse(e).replace(" ", "") if e is not None else "0"
+
+    def origin(e, at, depth=0):
+        """(sequence root text, slice lower text, running index text) of an element expression"""
+        if depth > 8:
+            return None
+        if isinstance(e, ast.Name):
+            # loop variable ?
+            p = getattr(at, "_parent", None)
+            while p is not None and p is not fi.node:
+                if isinstance(p, ast.For):
+                    it, tg = p.iter, p.target
+                    if isinstance(it, ast.Call) and call_name(it) == "enumerate" and isinstance(tg, ast.Tuple) and len(tg.elts) == 2 \
+                            and isinstance(tg.elts[1], ast.Name) and tg.elts[1].id == e.id and isinstance(tg.elts[0], ast.Name):
+                        seq = origin_seq(it.args[0], p, depth + 1)
+                        return None if seq is None else (seq[0], seq[1], tg.elts[0].id)
+                    if isinstance(it, ast.Call) and call_name(it) == "zip" and isinstance(tg, ast.Tuple):
+                        for k_, el in enumerate(tg.elts):
+                            if isinstance(el, ast.Name) and el.id == e.id and k_ < len(it.args):
+                                seq = origin_seq(it.args[k_], p, depth + 1)
+                                return None if seq is None else (seq[0], seq[1], f"<zip@{p.lineno}>")
+                    if isinstance(tg, ast.Name) and tg.id == e.id:
+                        seq = origin_seq(it, p, depth + 1)
+                        return None if seq is None else (seq[0], seq[1], f"<iter@{p.lineno}>")
+                p = getattr(p, "_parent", None)
+            v = _res(fi.node, e, before=at.lineno)
+            if v is e or isinstance(v, ast.Name):
+                return None
+            return origin(v, at, depth + 1)
+        if isinstance(e, ast.Subscript):
+            seq = origin_seq(e.value, at, depth + 1)
+            if seq is None:
+                return None
+            idx = e.slice
+            if isinstance(idx, ast.Tuple):
+                idx = idx.elts[0]
+            if isinstance(idx, ast.BinOp) and isinstance(idx.op, ast.Add) and seq[1] == "0":
+                # times[i0 + i]
+                l_, r_ = txt(idx.left), txt(idx.right)
+                return (seq[0], l_, r_)
+            return (seq[0], seq[1], txt(idx))
+        return None
+
+    def origin_seq(e, at, depth=0):
+        """(root text, lower bound text) of a sequence expression: times -> ('times','0'); times[a:b] -> ('times','a'); ds[..].values with ds = dset.isel(time=slice(a,b)) -> ('<spectra>','a')"""
+        if depth > 8:
+            return None
+        while isinstance(e, ast.Attribute) and e.attr in ("values", "data"):
+            e = e.value
+        if isinstance(e, ast.Subscript) and isinstance(e.slice, ast.Slice):
+            seq = origin_seq(e.value, at, depth + 1)
+            if seq is None or seq[1] != "0":
+                return None
+            return (seq[0], txt(e.slice.lower))
+        if isinstance(e, ast.Subscript):
+            return origin_seq(e.value, at, depth + 1)          # ds['efth']
+        if isinstance(e, ast.Call) and isinstance(e.func, ast.Attribute) and e.func.attr == "isel":
+            for k in e.keywords:
+                if k.arg == repo.attrs.TIMENAME and isinstance(k.value, ast.Call) and call_name(k.value) == "slice" and len(k.value.args) >= 2:
+                    return ("<records>", txt(k.value.args[0]))
+            return origin_seq(e.func.value, at, depth + 1)
+        if isinstance(e, ast.Name):
+            v = _res(fi.node, e, before=at.lineno)
+            if v is e or (isinstance(v, ast.Name) and v.id == e.id):
+                return ("<records>" if e.id in fi.params[:1] or e.id == "dset" else e.id, "0")
+            if isinstance(v, (ast.ListComp, ast.Call)) and not (isinstance(v, ast.Call) and isinstance(v.func, ast.Attribute) and v.func.attr == "isel"):
+                return (e.id, "0")          # a list built once from the whole dataset (the formatted time stamps)
+            return origin_seq(v, at, depth + 1)
+        return None
+    for c in calls:
+        if not c.args:
+            continue
+        tk = kwarg(c, "time") if kwarg(c, "time") is not None else (c.args[1] if len(c.args) > 1 else None)
+        if tk is None:
+            continue
+        oa, ot = origin(c.args[0], c), origin(tk, c)
+        if oa is None or ot is None:
+            raise AnalysisError(f"to_swan: origin of the block / time stamp handed to write_spectra not understood ({unparse(c)[:60]})")
+        if oa[1] == ot[1] and oa[2] == ot[2]:
+            rep.ok("R-C11-19", f"{fi.file}:{c.lineno} to_swan", unparse(c)[:70], f"block and stamp both at position {oa[1]} + {oa[2]}")
+        else:
+            rep.fail("R-C11-19", fi.file, c.lineno, fi.qualname, unparse(c)[:90],
+                     f"the spectra written are records {oa[1]} + {oa[2]} of the dataset but the time stamp is entry {ot[1]} + {ot[2]} of the time list: "
+                     "with ntime smaller than the number of times every block after the first is stamped with the wrong times", anchor="to_swan:block-time-pairing")
+
+
+def swan_header_precision(repo, rep):
+    """R-C11-20: the header prints every frequency with at least 5 decimals and every direction with at least 4 (what the reader gets back is what
+    was printed: fewer decimals than the grid needs moves the coordinate)."""
+    import re
+    rep.rule("R-C11-20", "SWAN header: frequencies are printed with >= 5 decimals, directions with >= 4 (fixed or exponent notation)")
+    wh = repo.cls("wavespectra.core.swan.SwanSpecFile").methods["write_header"]
+    need = {"self.freqs": 5, "self.dirs": 4}
+    seen = set()
+    for lp in ast.walk(wh.node):
+        if not (isinstance(lp, ast.For) and isinstance(lp.target, ast.Name) and unparse(lp.iter) in need):
+            continue
+        v = lp.target.id
+        specs = []
+        for c in ast.walk(lp):
+            if isinstance(c, ast.Call) and isinstance(c.func, ast.Attribute) and c.func.attr == "format" and isinstance(c.func.value, ast.Constant) \
+                    and isinstance(c.func.value.value, str) and any(isinstance(a, ast.Name) and a.id == v for a in c.args):
+                specs += re.findall(r"\{[^}]*?\.(\d+)([fFeEgG])\}", c.func.value.value)
+            if isinstance(c, ast.FormattedValue) and isinstance(c.value, ast.Name) and c.value.id == v and c.format_spec is not None:
+                sp = "".join(x.value for x in c.format_spec.values if isinstance(x, ast.Constant))
+                specs += re.findall(r"\.(\d+)([fFeEgG])", sp)
+            if isinstance(c, ast.BinOp) and isinstance(c.op, ast.Mod) and isinstance(c.left, ast.Constant) and isinstance(c.left.value, str) \
+                    and any(isinstance(a, ast.Name) and a.id == v for a in ast.walk(c.right)):
+                specs += re.findall(r"%[^%]*?\.(\d+)([fFeEgG])", c.left.value)
+        if not specs:
+            raise AnalysisError(f"write_header: format of the values of {unparse(lp.iter)} not found")
+        seen.add(unparse(lp.iter))
+        for d, kind in specs:
+            if kind in "fFeE" and int(d) >= need[unparse(lp.iter)] or kind in "gG" and int(d) >= need[unparse(lp.iter)] + 1:
+                rep.ok("R-C11-20", f"{wh.file}:{lp.lineno} write_header", f"{unparse(lp.iter)}: .{d}{kind}", "enough decimals")
+            else:
+                rep.fail("R-C11-20", wh.file, lp.lineno, wh.qualname, f"{unparse(lp.iter)} printed with .{d}{kind}",
+                         f"{'frequencies' if 'freq' in unparse(lp.iter) else 'directions'} are printed with {d} decimals (needed: {need[unparse(lp.iter)]}): a grid such as "
+                         "0.03453 Hz reads back as 0.0345 Hz", anchor=f"swan-header-precision:{unparse(lp.iter)}")
+    if seen != set(need):
+        raise AnalysisError(f"write_header: loops over {sorted(set(need) - seen)} not found")
+
+
 def run(repo, rep, tier):
+    swan_header_precision(repo, rep)
+    swan_nodata_and_chunks(repo, rep)
     rep.rule("R-C11-16", "(shared with C05) direction bin widths are taken circularly: the width enters the variance the regridding conserves and the "
                         "energy <-> density conversion of the writers / readers")
     from .c05 import circular_width
